@@ -2,6 +2,8 @@
 import Driver.Common
 import Driver.SvgOps
 import FastQr.Model.Image
+import FastQr.Spec.Raster
+import Driver.RenderOps
 
 open FastQr FastQr.Model
 
@@ -116,6 +118,62 @@ def opPixFrame (args res : List String) : Verdict :=
        | ["none"], _ => { spec := some "no-frame-in-the-pixmap", model := some "no-frame" }
        | _, none => { spec := some "model-has-no-frame" }
        | _, _ => { spec := some "bad-result" })
+  | _, "trap" :: _ => { spec := some "to_pixmap-panicked", model := some "trap" }
+  | _, _ => {}
+
+
+/-- `pixsvg <hex> e m v k <ops> <w> => ok <W> <S> <svg hex> <centres> <pixels|->`: the ideal rasteriser of the
+specification on the real SVG text against the real rasteriser. -/
+def opPixSvg (args res : List String) : Verdict :=
+  match args, res with
+  | [_, _, _, _, _, opsS, _], ["ok", w, cells, svgHex, centres, pixels] =>
+    let W := w.toNat!
+    let S := cells.toNat!
+    match parseSvgOps opsS, bytesToString (parseHexBytes svgHex) with
+    | some ops, some svg =>
+      let b := Svg.Builder.run ops
+      match Spec.Raster.sceneOf svg S with
+      | none => { spec := some "SPEC-ideal-rasteriser-cannot-read-the-document" }
+      | some sc =>
+        let top := (sc.layers.getLast?.map (·.colour)).getD sc.background
+        let cls (px py : Nat) : Char :=
+          let c := Spec.Raster.paint sc S W px py
+          if c == sc.background then 'l' else if c == top then 'd' else 'o'
+        -- centres (>= 4 px per module)
+        let cs := centres.toList.toArray
+        let badCentre := if W < 4 * S then none else
+          (List.range (S * S)).findSome? fun k =>
+            let r := k / S
+            let c := k % S
+            let ideal := cls (Spec.Raster.centrePixel S W c) (Spec.Raster.centrePixel S W r)
+            if cs.getD k '?' == ideal then none else some s!"SPEC-vs-resvg:centre-of-cell({r},{c}):ideal[{ideal}]real[{cs.getD k '?'}]"
+        -- every pixel: a real pixel in the pure module colour has its centre inside a shape, one in the pure
+        -- background colour has its centre outside every shape (anti-aliased pixels say nothing)
+        let ps := pixels.toList.toArray
+        let badPixel := if pixels == "-" then none else
+          (List.range (W * W)).findSome? fun k =>
+            let y := k / W
+            let x := k % W
+            let real := ps.getD k '?'
+            if real == 'o' then none else
+            let ideal := cls x y
+            if real == ideal then none else
+            -- two shapes may leave a hairline gap (adjacent circles: 0.005 module) that a real renderer cannot
+            -- resolve: a fully painted pixel whose centre lies in such a gap is accepted when a point 0.02 module
+            -- away is inside a shape
+            let U : Int := 40 * W
+            let X : Int := 20 * S * (2 * x + 1)
+            let Y : Int := 20 * S * (2 * y + 1)
+            let d : Int := U / 50
+            let near := [(X + d, Y), (X - d, Y), (X, Y + d), (X, Y - d)].any fun (p : Int × Int) =>
+              Spec.Raster.paintAt sc U p.1 p.2 == top
+            if real == 'd' ∧ ideal == 'l' ∧ near then none
+            else some s!"SPEC-vs-resvg:pixel({x},{y}):ideal[{ideal}]real[{real}]"
+        -- the model's own rendering reads as the same scene
+        let msc := Spec.Raster.sceneOf (Svg.toStr b ⟨S - 2 * b.margin, #[]⟩) S
+        { spec := firstFail [badCentre, badPixel],
+          model := if msc.isSome then none else some "model-rendering-unreadable-by-the-ideal-rasteriser" }
+    | _, _ => { spec := some "bad-case" }
   | _, "trap" :: _ => { spec := some "to_pixmap-panicked", model := some "trap" }
   | _, _ => {}
 
